@@ -86,6 +86,7 @@ func (c *Ctx) alph() *alphAnchors {
 func c08(c *Ctx) {
 	a := c.alph()
 	p, R := a.p, c.R
+	loopVarRule(c, p, "C08.loopvar", pkgAlph)
 	R.Trust("go/types + go/ssa", "the Alephium full node answers honestly (events, headers, main-chain membership, heights)", "Go channel semantics")
 	R.Assumption("races between two consecutive node API calls are inherent to polling and not decided", "sdk.ContractEventByTxId.BlockHash/ContractAddress identify the block and contract that emitted the event")
 
@@ -461,7 +462,7 @@ func c08reobs(c *Ctx, a *alphAnchors) {
 		if ev == "local:event" {
 			eachInstr(s.Fn, func(i ssa.Instruction) {
 				if st, ok := i.(*ssa.Store); ok {
-					if a2, ok := st.Addr.(*ssa.Alloc); ok && a2.Comment == "event" && facts.Term(st.Val) == "(*N/alephium.Client).GetEventsByTxId(client,ctx,txId)#0.Events[(phi:rangeindex + 1)]" {
+					if a2, ok := st.Addr.(*ssa.Alloc); ok && facts.LocalName(a2.Parent(), a2.Comment) == "event" && facts.Term(st.Val) == "(*N/alephium.Client).GetEventsByTxId(client,ctx,txId)#0.Events[(phi:rangeindex + 1)]" {
 						isElem = true
 					}
 				}
